@@ -33,7 +33,7 @@ KINDS = ["pyint", "npint", "pyfloat", "npfloat", "pycomplex", "npcomplex"]
 AXIOMS = ["np.sum=ADD", "np.prod=MUL", "np.power/int-negint-raises", "np.power/-1=recip", "float(int)", "int-kind-closure", "flatten-rowmajor", "reshape-rowmajor",
           "np.insert", "np.array-dtype-complex-into-real", "lambdify-subst", "symbol-eq-by-name", "free_symbols-set", "deepcopy-independent", "dict-order",
           "format-float-roundtrip", "format-complex", "re-word-alternation", "os.path", "sorted-stable", "np.signbit", "np.isclose", "np.array-ragged",
-          "elementary-functions", "int-float-complex-literals", "str-replace-quotes", "range-star"]
+          "elementary-functions", "int-float-complex-literals", "str-replace-quotes", "range-star", "class-hierarchy"]
 
 
 def cases(rng, n, tier):
@@ -50,6 +50,39 @@ def check(case):
     a, b = _num(rng, ka), _num(rng, kb)
     isint = lambda v: isinstance(v, (int, np.integer)) and not isinstance(v, (bool, np.bool_))
     bad = lambda exp, act: {"expected": "%s: %s" % (ax, exp), "actual": str(act)}
+
+    if ax == "class-hierarchy":
+        # pyvc/lib.py DISJOINT_CLASSES / SUBCLASSES, read from the verifier's own source so that the sampled facts are the assumed ones
+        import ast as _ast
+        from blackbird.listener import RegRefTransform
+        src = open(os.path.join(os.path.dirname(os.path.dirname(os.path.abspath(__file__))), "pyvc", "lib.py")).read()
+        env = {}
+        for node in _ast.parse(src).body:
+            if isinstance(node, _ast.Assign) and isinstance(node.targets[0], _ast.Name) and \
+               node.targets[0].id in ("_CONTAINERS", "_NUMBERS", "_NUMBER_OVERLAPS", "DISJOINT_CLASSES", "SUBCLASSES"):
+                exec(compile(_ast.Module(body=[node], type_ignores=[]), "lib.py", "exec"), env)
+        cls = {"str": str, "list": list, "tuple": tuple, "dict": dict, "set": set, "np.ndarray": np.ndarray, "RegRefTransform": RegRefTransform, "sym.Expr": sym.Expr,
+               "int": int, "float": float, "complex": complex, "np.integer": np.integer, "np.floating": np.floating, "np.complexfloating": np.complexfloating,
+               "np.generic": np.generic, "sym.Symbol": sym.Symbol, "bool": bool}
+        x = sym.Symbol("x")
+        pool = [None, True, False, 0, -3, 2 ** 70, 0.5, float("inf"), 1j, "", "p0", [], [1], (), (1, 2), {}, {"a": 1}, set(), {1}, np.array([1.0]), np.array([[x]]),
+                np.int64(3), np.int32(3), np.uint8(3), np.float64(0.5), np.float32(0.5), np.complex128(1j), np.complex64(1j), np.bool_(True), np.str_("a"),
+                x, x + 1, sym.Integer(2), sym.Float(0.5), sym.I, sym.pi, sym.sin(x), RegRefTransform(sym.Symbol("q0")), a, b]
+        for ca, cb in env["DISJOINT_CLASSES"]:
+            A, B = cls[ca], cls[cb]
+            if issubclass(A, B) or issubclass(B, A):
+                return bad("%s and %s unrelated" % (ca, cb), "one is a subclass of the other")
+            for v in pool:
+                if isinstance(v, A) and isinstance(v, B):
+                    return bad("no object is both %s and %s" % (ca, cb), repr(v))
+        for dt in (np.int8, np.int64, np.uint16, np.float16, np.float32, np.float64, np.complex64, np.complex128, np.bool_, np.object_, np.str_, np.dtype("int32"),
+                   np.array([1]).dtype, np.array([1.5]).dtype, np.array([1j]).dtype, np.array([x]).dtype):
+            if sum(bool(np.issubdtype(dt, k)) for k in (np.integer, np.floating, np.complexfloating)) > 1:
+                return bad("a dtype is a sub-dtype of at most one of integer / floating / complexfloating", dt)
+        for sub, sup in env["SUBCLASSES"]:
+            if not issubclass(cls[sub], cls[sup]):
+                return bad("%s is a subclass of %s" % (sub, sup), "it is not")
+        return None
 
     if ax == "np.sum=ADD":
         r = np.sum([a, b], axis=0)
